@@ -115,6 +115,59 @@ def robustness_checks():
                             violated='delivered batches are not a prefix of the draws taken from the underlying generator (samples lost or reordered)',
                             first_difference=first, delivered=delivered[:14], drawn=src.given[:14]))
 
+    # samples that are ROWS of a 2-D tensor: the batch size counts rows
+    class Rows(BaseGenerator):
+        def __init__(self):
+            super().__init__()
+            self.size, self.k, self.given = 3, 0, []
+
+        def get_examples(self):
+            t = torch.tensor([[float(self.k * 3 + i), float(self.k * 3 + i) + 0.5] for i in range(3)])
+            self.k += 1
+            self.given += t.tolist()
+            return t
+    src = Rows()
+    bg = BatchGenerator(src, 4)
+    delivered = []
+    for _ in range(4):
+        b = bg.get_examples()
+        b = b[0] if isinstance(b, (list, tuple)) else b
+        if tuple(b.shape) != (4, 2):
+            bad.append(dict(script=dict(kind='samples are rows of an (N, 2) tensor'), violated=f'batch of shape {tuple(b.shape)}, expected (4, 2)'))
+            break
+        delivered += b.tolist()
+    if delivered != src.given[:len(delivered)]:
+        bad.append(dict(script=dict(kind='samples are rows of an (N, 2) tensor'), violated='delivered rows are not a prefix of the drawn rows'))
+    # a sub-generator that IS a PredefinedGenerator / StaticGenerator (subclass) but whose draws differ: it is asked again like any other
+    from neurodiffeq.generators import PredefinedGenerator, StaticGenerator, Generator1D
+
+    class Counting(PredefinedGenerator):
+        def __init__(self):
+            super().__init__([0.0, 1.0, 2.0])
+            self.k, self.given = 0, []
+
+        def get_examples(self):
+            t = torch.tensor([float(self.k * 3 + i) for i in range(3)])
+            self.k += 1
+            self.given += t.tolist()
+            return t
+    src = Counting()
+    bg = BatchGenerator(src, 4)
+    delivered = []
+    for _ in range(4):
+        delivered += bg.get_examples().tolist()
+    if delivered != src.given[:len(delivered)]:
+        bad.append(dict(script=dict(kind='underlying generator is a PredefinedGenerator subclass with varying draws'),
+                        violated='delivered batches are not a prefix of the draws', delivered=delivered[:10], drawn=src.given[:10]))
+    pre = PredefinedGenerator([0.0, 1.0, 2.0])
+    bg = BatchGenerator(pre, 2)
+    first = bg.get_examples().tolist() + bg.get_examples().tolist()
+    pre.xs = torch.tensor([10.0, 11.0, 12.0], requires_grad=True)          # the user refreshes the predefined points
+    later = [v for _ in range(4) for v in bg.get_examples().tolist()]
+    if not any(v >= 10.0 for v in later):
+        bad.append(dict(script=dict(kind='PredefinedGenerator whose points are replaced between batches'),
+                        violated='the refreshed points are never delivered (the underlying generator is no longer asked)', later_batches=later))
+
     class Widening(BaseGenerator):
         def __init__(self):
             super().__init__()
